@@ -298,6 +298,33 @@ def run(ctx):
         if len(cases) < 3:
             ctx.sample({"arch": arch, "kernel": text, "provably_equal": info["equal"], "links": links})
         cases.append(case)
+    # letter case: register names are case-insensitive, and one process sees hand-written upper-case kernels next to compiler output.
+    # A write to the 32/16/8-bit part of the base register between store and reload makes the address unknown in EITHER spelling and in
+    # either order of analysis (a name-keyed memo filled by the first spelling must not decide for the second).
+    if "zen2" in avail or "hsw" in avail:
+        arch = "zen2" if "zen2" in avail else "hsw"
+        pipe = pipes.setdefault(arch, deps.Pipeline(ctx, "x86", arch=arch))
+        subs = {"rbx": ["ebx", "bx", "bl"], "rcx": ["ecx", "cx", "cl"], "r9": ["r9d", "r9w", "r9b"]}
+        order = [(R, sub, up) for R in subs for sub in subs[R] for up in (True, False)]
+        ctx.rng.shuffle(order)
+        for R, sub, up in order:
+            mn = {"e": "addl", "r9d": "addl"}.get(sub[:1] if sub[0] == "e" else sub, "addw" if sub.endswith(("x", "w")) else "addb")
+            lines = ["movq %%rdx, 16(%%%s)" % R, "%s $4, %%%s" % (mn, sub), "movq 16(%%%s), %%rsi" % R, "addq %rsi, %rdx"]
+            if up:
+                import re as _re
+                lines = [_re.sub(r"%[a-z0-9]+", lambda m: m.group(0).upper(), l) for l in lines]
+            text = "\n".join(lines) + "\n"
+            rep = {"isa": "x86", "arch": arch, "text": text}
+            try:
+                case, kernel, dg = deps.build_case(pipe, text, False, with_lcd=False, with_cp=False)
+            except Exception as e:  # noqa
+                ctx.violation("memdep-raises", "analysis of a store/load kernel raises %r" % e, rep)
+                continue
+            ctx.count()
+            if any((not ld) and u == 1 and v == 3 for (u, ld, v) in case["edges"]):
+                ctx.violation("store-load-edge-spurious", "%s: dependency reported although %%%s (part of the base register) is written between store and reload: %s"
+                              % (arch, sub.upper() if up else sub, text.replace("\n", " ; ")), rep)
+        ctx.coverage["letter_case_subregister_kernels"] = len(order)
     # exhaustive small family: every sequence of <= 4 bumps/copies over two address registers, load through either
     import itertools
     fam = []
